@@ -14,6 +14,7 @@ def main():
     if not ck.build():
         ck.finish()
     ck.check_props()
+    ck.check_translation("compiler")
     Nmax = 16
     items = [[N, k] for N in range(2, Nmax + 1) for k in range(0, N + 2)]
     items += [[N, k] for N in (17, 24, 31, 32, 33, 40, 64, 65) for k in sorted({1, 2, 3, N // 2, N - 2, N - 1, N})]
